@@ -281,7 +281,8 @@ fn join_line(
 pub fn stroke_to_path(path: &Path, style: &StrokeStyle) -> Path {
     let mut stroked_path = PathBuilder::new();
 
-    if style.width <= 0. {
+    // written this way round so that a NaN width is rejected too
+    if !(style.width > 0.) {
         return stroked_path.finish();
     }
 
